@@ -364,6 +364,12 @@ fn gen_dt(rng: &mut Rng, dmax: f64, profile: u64) -> f64 {
         },
     };
     let dt = k as f64 / 64.0;
+    if profile == 3 {
+        // coarse steps BEYOND the derating bound: a single accepted step may carry a battery across its SOC
+        // window (limits are evaluated at the start of the step); the ledger must close on such steps too
+        let f = *rng.pick(&[1.5, 2.0, 3.0, 5.0, 8.0, 12.0]);
+        return ((dmax * f * 64.0).floor() / 64.0).clamp(4.0 / 64.0, 900.0);
+    }
     dt.min(((dmax * 64.0).floor() / 64.0).max(4.0 / 64.0))
 }
 
@@ -424,7 +430,8 @@ pub fn generate(rng: &mut Rng, focus: &str, thorough: bool) -> Case {
     let p_interval = if rng.chance(0.7) { 0.0 } else { 0.03 };
     let p_reject = if rng.chance(0.4) { 0.0 } else { 0.04 };
     let p_engine_off = if rng.chance(0.6) { 0.0 } else { *rng.pick(&[0.05, 0.3]) };
-    let dt_profile = rng.below(3);
+    // C01 only (C09's statement bounds the step size): one run in seven uses steps coarser than the derating bound
+    let dt_profile = if focus == "C01" && rng.chance(0.15) { 3 } else { rng.below(3) };
     let n_ticks = if thorough { rng.usize(20, 400) } else { rng.usize(20, 160) };
     // demand profile weights: [at-limit ride, near-limit, inside, zero, brake, regen, sign flips, light regen]
     let prof = match focus {
